@@ -226,6 +226,7 @@ def run_paths(name, hyps, harness, funcs, bound, sig, witfn, max_paths=256):
             nq += 1
             v, m = Q.check(hyps + p.cond() + [b], 30, tag=f"{name}|{lab}")
             if v == "sat":
+                m = core.normalised_model(hyps + p.cond() + [b], 30, tag=f"{name}|{lab}|normalise") or m
                 return result(name, VIOLATED, functions=funcs, bound=bound, twin="sat", signature=f"{sig}|{lab}",
                               witness=witfn(m, lab))
             if v != "unsat":
@@ -271,6 +272,41 @@ def ob_rp_threshold(name, cls_name, metric, n, nan):
                 "x": [sx.model_value(m, pe._num(v)) for v in x] if m else None, "eps": sx.model_value(m, eps.v) if m else None}
     return run_paths(name, hyps, harness, funcs, f"length {n}, {'NaN-able' if nan else 'real'} samples, real threshold>0",
                      f"C07|{cls_name}|threshold={metric}", wit)
+
+
+def ob_rp_threshold_std(name, cls_name, n, dim, tau):
+    """RecurrencePlot(ts, dim, tau, threshold_std=c): states are the delay vectors, recurrent iff their supremum distance is below
+    c times the standard deviation of the TIME SERIES (as documented), i.e. d^2 < c^2 * var(ts) for d, c >= 0"""
+    from pyunicorn.timeseries import RecurrencePlot, RecurrenceNetwork
+    cls = {"RecurrencePlot": RecurrencePlot, "RecurrenceNetwork": RecurrenceNetwork}[cls_name]
+    funcs = ["src/pyunicorn/timeseries/recurrence_plot.py RecurrencePlot.__init__/set_fixed_threshold_std/embed_time_series",
+             kern.module(TS).func_info("_embed_time_series"), kern.module(TS).func_info("_supremum_distance_matrix_rp")]
+    x = sym_series(n, "x")
+    c = SV(z3.Real("c"))
+    hyps = [c.v > 0]
+    xs = [pe._num(v) for v in x]
+    L = n - (dim - 1) * tau
+    states = [[xs[k + j * tau] for j in range(dim)] for k in range(L)]
+    mean = sx.div(sx.total(xs), n)
+    var = sx.div(sx.total(mul(sub(v, mean), sub(v, mean)) for v in xs), n)
+    spec = {}
+    for i in range(L):
+        for j in range(L):
+            d, _ = dist_spec("supremum", states[i], states[j])
+            spec[(i, j)] = lt(mul(d, d), mul(mul(c.v, c.v), var))
+
+    def harness(ex):
+        with pe.patched(ts_mods(), ts_patches()):
+            rp = cls(SymNd(np.array(list(x), dtype=object)), metric="supremum", dim=dim, tau=tau, threshold_std=c, silence_level=3)
+            out = [("R", b) for b in collect_bad(rp.recurrence_matrix(), spec, L)]
+            out.append(("N", rp.N != L))
+            return [(l, b) for l, b in out if b is not False]
+
+    def wit(m, lab):
+        return {"kind": "rp-threshold-std", "cls": cls_name, "dim": dim, "tau": tau,
+                "x": [sx.model_value(m, v) for v in xs] if m else None, "c": sx.model_value(m, c.v) if m else None}
+    return run_paths(name, hyps, harness, funcs, f"length {n}, dim={dim}, tau={tau}, real threshold_std>0",
+                     f"C07|{cls_name}|threshold_std+embedding", wit)
 
 
 def ob_jrp(name, n, lag, net):
@@ -449,6 +485,8 @@ def obligations(tier):
             obs.append((ob_rp_threshold, dict(name=f"C07|RecurrencePlot|threshold|{metric}|n={n}", cls_name="RecurrencePlot", metric=metric, n=n, nan=False), 1200))
         obs.append((ob_rp_threshold, dict(name=f"C07|RecurrencePlot|threshold+missing|{metric}|n=3", cls_name="RecurrencePlot", metric=metric, n=3, nan=True), 1200))
         obs.append((ob_crp, dict(name=f"C07|CrossRecurrencePlot|threshold|{metric}|2x3", metric=metric, n=2, m=3), 1200))
+    obs.append((ob_rp_threshold_std, dict(name="C07|RecurrencePlot|threshold_std+embedding|n=3,dim=2,tau=1", cls_name="RecurrencePlot", n=3, dim=2, tau=1), 1200))
+    obs.append((ob_rp_threshold_std, dict(name="C07|RecurrencePlot|threshold_std|n=3,dim=1", cls_name="RecurrencePlot", n=3, dim=1, tau=1), 1200))
     obs.append((ob_rp_threshold, dict(name="C07|RecurrenceNetwork|threshold|supremum|n=3", cls_name="RecurrenceNetwork", metric="supremum", n=3, nan=False), 1200))
     for lag in (0, 1, -1, 2):
         n = 3 if abs(lag) < 2 else 4        # at least 2 states left after the shift
@@ -520,6 +558,17 @@ def replay(w):
             bad = (A != ref - np.eye(n, dtype=int)).any()
             msg += f" adjacency {A.tolist()}"
         return bool(bad), msg
+    if kind == "rp-threshold-std":
+        x = np.array(f(w["x"]), dtype=float)
+        c = float(f(w["c"]))
+        cls = RecurrenceNetwork if w["cls"] == "RecurrenceNetwork" else RecurrencePlot
+        rp = cls(x, metric="supremum", dim=w["dim"], tau=w["tau"], threshold_std=c, silence_level=3)
+        L = len(x) - (w["dim"] - 1) * w["tau"]
+        emb = np.array([[x[k + j * w["tau"]] for j in range(w["dim"])] for k in range(L)])
+        D = np.abs(emb[:, None, :] - emb[None, :, :]).max(axis=2)
+        ref = (D < c * x.std()).astype(int)
+        R = np.asarray(rp.recurrence_matrix())
+        return bool(R.shape != ref.shape or (R != ref).any()), f"x={x.tolist()} dim={w['dim']} tau={w['tau']} threshold_std={c}: R={R.tolist()} expected {ref.tolist()}"
     if kind == "jrp":
         x, y = np.array(f(w["x"]), dtype=float), np.array(f(w["y"]), dtype=float)
         e = [float(v) for v in f(w["e"])]
